@@ -278,6 +278,9 @@ class Campaign:
             for mine in self.seq:
                 base = next((e["_base"] for e in mine if e["_base"] is not None), None)
                 total, prev = 0, mine[0]["block"]
+                # the function of the block the requests were registered for, as apply() sees it on arriving there
+                r0 = allrecs[mine[0]["_rec"]] if mine[0].get("_rec") is not None and mine[0]["_rec"] < len(allrecs) else None
+                func = next((f for b_, f in (r0["before"].get("fbb") or []) if b_ == mine[0]["block"]), None) if r0 else None
                 for e in mine:
                     r = allrecs[e["_rec"]] if e.get("_rec") is not None and e["_rec"] < len(allrecs) else None
                     if r is None or "after" not in r or r.get("raised") or base is None:
@@ -289,7 +292,7 @@ class Campaign:
                     else:
                         step.update(length=d["length"], proxy=d["proxy"])
                     reqs.append({"op": "loop_step", "ir": r["before"], "orig_off": base, "actual": d["block"],
-                                 "total": total, "do": step})
+                                 "total": total, "func": func, "do": step})
                     loops.append((r, prev, e))
                     prev = r.get("ret")
                     total += len(e["ins"]) - e["del"]
@@ -401,7 +404,7 @@ class Campaign:
                 if "ir" not in la["res"]:
                     ctx.mismatch("model of the loop refuses a request the code performs: %s" % (la["res"].get("err"),), case)
                     continue
-                if irdump.canon(r["after"])[0] != irdump.canon(la["res"]["ir"])[0]:
+                if irdump.canon(r.get("iter_after", r["after"]))[0] != irdump.canon(la["res"]["ir"])[0]:
                     ctx.mismatch("IR after one iteration of the _apply_modifications loop differs between code and model", case)
         self.pending = []
 
